@@ -23,6 +23,7 @@
 
 static sslKeys_t *g_srvKeys;
 static int g_stripAll;
+static int g_tls13Server = 1;
 
 static void downgradedServerSni(void *p, char *host, int32 hostLen,
         sslKeys_t **newKeys)
@@ -31,7 +32,10 @@ static void downgradedServerSni(void *p, char *host, int32 hostLen,
 
     (void) host; (void) hostLen;
     /* TLS 1.2 was negotiated; this server does support TLS 1.3 */
-    srv->supportedVersions |= v_tls_1_3;
+    if (g_tls13Server)
+    {
+        srv->supportedVersions |= v_tls_1_3;
+    }
     srv->extFlags.sni_in_last_client_hello = 0;
     srv->extFlags.got_elliptic_points = 0;
     if (g_stripAll)
@@ -113,6 +117,19 @@ int main(void)
     }
     printf("  -> client aborted (illegal_parameter): sentinel honoured\n");
 
+    printf("sanity: genuine TLS 1.2-only server, ServerHello without "
+           "extension block\n");
+    g_tls13Server = 0;
+    done = run(1, &sentinel, &alert, &ver);
+    g_tls13Server = 1;
+    if (!done || sentinel)
+    {
+        printf("honest extension-less TLS 1.2 handshake failed (alert=%d)\n",
+               alert);
+        return 2;
+    }
+    printf("  -> completes at TLS 1.2 (no sentinel)\n");
+
     printf("test: downgraded ServerHello without extension block\n");
     done = run(1, &sentinel, &alert, &ver);
     if (done && sentinel && (ver & v_tls_1_2))
@@ -123,6 +140,7 @@ int main(void)
                "ServerHello has no extensions)\n");
         return 1;
     }
-    printf("no violation\n");
+    printf("OK: the client aborted the extension-less downgraded handshake "
+           "as well (alert %d at server)\n", alert);
     return 0;
 }
